@@ -173,7 +173,13 @@ func (core *JApiCore) checkPathSchemaRoot(s *jschema.JSchema) error {
 			return fmt.Errorf(`%s (%s)`, jerr.UserTypeNotFound, typeName)
 		}
 
-		return core.checkPathSchemaRoot(ut.Schema.(*catalog.ExchangeJSightSchema).JSchema)
+		// A regex, any or empty user type is not an object.
+		es, ok := ut.Schema.(*catalog.ExchangeJSightSchema)
+		if !ok {
+			return errors.New(jerr.PathObjectErr)
+		}
+
+		return core.checkPathSchemaRoot(es.JSchema)
 	}
 
 	if s.ASTNode.TokenType != schema.TokenTypeObject {
